@@ -509,7 +509,16 @@ func (lh *LightHouse) QueryServer(vpnAddr netip.Addr) {
 		return
 	}
 
-	lh.queryChan <- vpnAddr
+	// The query worker exits with the service context, don't wedge the caller behind a full queue after that
+	var done <-chan struct{}
+	if lh.ctx != nil {
+		done = lh.ctx.Done()
+	}
+
+	select {
+	case lh.queryChan <- vpnAddr:
+	case <-done:
+	}
 }
 
 func (lh *LightHouse) QueryCache(vpnAddrs []netip.Addr) *RemoteList {
